@@ -37,6 +37,21 @@ def run(ctx, ps, gen_bad):
             st = dict(t.split('=') for t in line.split()[1:])
     if rc2 != 0 or not st:
         fails.append(Failure('C16', 'tie', 'xdr-driver', (o + e)[-400:], replay=rep))
+    # truncated argument bytes through the registered handler wrappers (judged by the harness itself: a proper prefix
+    # of a valid argument encoding must come back as a decode error, never reach the procedure)
+    wcuts = 0
+    try:
+        for line in open(trace):
+            if line.startswith('W ') and ' BAD ' in line:
+                t = line.split()
+                if not [f for f in fails if f.where == 'wrapper ' + t[1]]:
+                    fails.append(Failure('C16', 'xdr', 'wrapper ' + t[1], ' '.join(t[3:])[:300], replay=dict(rep, procedure=t[1])))
+            elif line.startswith('WD '):
+                wcuts = int(line.split()[2].split('=')[1])
+    except OSError:
+        pass
+    if wcuts == 0:
+        fails.append(Failure('C16', 'tie', 'xdr-wrappers', 'the wrapper pass did not run', replay=rep))
     if ps and ps.get('broken'):
         # name the RFC types / procedures on which the conformance obligations fail (computed by Coq itself)
         wf = os.path.join(ctx.work, 'Witness.v')
@@ -66,7 +81,9 @@ def run(ctx, ps, gen_bad):
                     'and by the independent rfc1813 package; malformed: truncations, bit flips and inflated length words, accept/reject and decoded value must agree; '
                     'non-trivial = well-formed values',
                samples=samples, malformed=int(st.get('malformed', 0)), malformed_accepted_by_both=int(st.get('accepted', 0)),
-               malformed_rejected_by_both=int(st.get('rejected', 0)), programs=67, disagreements_checked=int(st.get('bad', 0)))
+               malformed_rejected_by_both=int(st.get('rejected', 0)), programs=67, disagreements_checked=int(st.get('bad', 0)),
+               truncated_argument_prefixes_through_registered_wrappers=wcuts)
+    cov['evaluations'] += wcuts
     return fails, cov
 
 
